@@ -11,7 +11,6 @@
 package c12
 
 import (
-	"time"
 	"crypto/sha256"
 	"encoding/json"
 	"fmt"
@@ -19,6 +18,7 @@ import (
 	"sort"
 	"strings"
 	"sync"
+	"time"
 
 	"go.starlark.net/starlark"
 	"go.starlark.net/syntax"
@@ -88,15 +88,15 @@ func (m *model) String() string {
 // configurations
 
 type config struct {
-	name    string
-	set     bool // Set rather than Dict
-	keys    []K
-	presize int  // 0: new(Dict) zero value; -1: NewDict(0); n: NewDict(n)
-	sym     bool // keys interchangeable: canonicalise by order position
-	ops     []op
-	vals    bool // include values in the state key
+	name     string
+	set      bool // Set rather than Dict
+	keys     []K
+	presize  int  // 0: new(Dict) zero value; -1: NewDict(0); n: NewDict(n)
+	sym      bool // keys interchangeable: canonicalise by order position
+	ops      []op
+	vals     bool // include values in the state key
 	maxDepth int
-	prefill int // the search starts from the table that holds the first prefill keys (inserted in order)
+	prefill  int // the search starts from the table that holds the first prefill keys (inserted in order)
 }
 
 // state is a live implementation object with its model.
@@ -483,6 +483,7 @@ func otherSet(keys []K, ids []int) *starlark.Set {
 	}
 	return s
 }
+
 // otherList is the operand as a list with repeats: the first element twice in
 // a row and once more at the end (a set operand cannot repeat; an iterable can,
 // and only first occurrences count).
